@@ -240,7 +240,11 @@ def mk_cases(ctx):
     lays = [[], [("", {})], [("", {"fg": 31})], [("ab", {"fg": 31})], [("a", {"fg": 31, "bold": True}), ("b", {"fg": 31, "bold": False})],
             [("a", {"fg": 31, "bg": 44}), ("", {"underline": True}), ("bc", {"fg": 31, "bg": 44, "italic": True})],
             [("", {"fg": 31}), ("a", {"bg": 44})], [("a", {"bg": 44}), ("b", {})], [("ab", {"bold": True, "blink": False}), ("c", {"bold": True, "blink": False})],
-            [("a", p) for p in PALETTE[1:4]]]
+            [("a", p) for p in PALETTE[1:4]],
+            # runs made only of zero-WIDTH characters are still characters (combining acute, zero-width space)
+            [("e", {"fg": 31}), ("\u0301", {"fg": 34})], [("\u200b", {"fg": 31, "bold": True}), ("a", {"bg": 44, "bold": True})],
+            [("a", {"fg": 31, "underline": True}), ("\u0301\u200b", {"fg": 31}), ("b", {"fg": 31, "underline": True})],
+            [("\u0301", {"bg": 41}), ("", {"fg": 31})]]
     for f in lays:
         cases.append(dict(op="shared", f=f))
         for a in PALETTE + [{"bold": False}, {"fg": 30, "bg": 47, "bold": True, "dark": False, "italic": True, "underline": False, "blink": True, "invert": False}]:
@@ -330,9 +334,16 @@ def line(c):
 
 
 def impl(c):
-    if c["op"] in ("parse", "shared"):
-        return guarded(lambda: "ok " + wire.enc_atts(run_impl(c)))
-    return guarded(lambda: reply_fmt(run_impl(c)))
+    """reply of the real code in the driver's syntax; a result the wire cannot express (an attribute value outside
+    the model's domain, e.g. {'fg': 31.0}) is a reply of its own, so the tie disagrees instead of crashing"""
+    try:
+        if c["op"] in ("parse", "shared"):
+            return guarded(lambda: "ok " + wire.enc_atts(run_impl(c)))
+        return guarded(lambda: reply_fmt(run_impl(c)))
+    except wire.Unencodable as e:
+        return "unencodable:" + repr(e)
+    except Exception as e:  # noqa: BLE001 - observing the result failed
+        return "unobservable:%s:%s" % (type(e).__name__, e)
 
 
 def canon_atts(reply):
@@ -351,7 +362,7 @@ def override(cs, named):
     return [(ch, tuple(sorted(dict(dict(a), **named).items()))) for ch, a in cs]
 
 
-def oracle(c):
+def _oracle(c):
     op = c["op"]
     if c.get("valid") is None and op == "parse":
         return None
@@ -412,6 +423,14 @@ def oracle(c):
     raise KeyError(op)
 
 
+def oracle(c):
+    """the property on the raw Python result; any exception while observing a result is a violation, never a crash"""
+    try:
+        return _oracle(c)
+    except Exception as e:  # noqa: BLE001
+        return "observing the result raised %s: %s" % (type(e).__name__, e)
+
+
 def footprint(c, what):
     return None
 
@@ -445,6 +464,14 @@ def check(ctx):
             tied.append(dict(op="apply", lay="nest2", f=mid, spec=c["specs"][1], valid=True))
         else:
             tied.append(c)
+    ok = []
+    for c in tied:
+        try:
+            line(c)
+            ok.append(c)
+        except wire.Unencodable:
+            ctx.dist["not-encodable-for-the-model"] += 1   # the oracle still judges the case below
+    tied = ok
     ctx.tie("C14/atts", [c for c in tied if c["op"] in ("parse", "shared")], line, impl, canon_atts, canon_atts)
     ctx.tie("C14/cells", [c for c in tied if c["op"] not in ("parse", "shared")], line, impl, canon_cells, canon_cells)
     for c in cases:
